@@ -19,6 +19,7 @@ func init() {
 }
 
 type c13Case struct {
+	Cache     bool   `json:"cache"`
 	WorldSeed int64  `json:"world_seed"`
 	Layout    int    `json:"layout"`
 	Backend   string `json:"backend"`
@@ -76,7 +77,7 @@ func c13Check(q *dns.Msg, res harness.Result, tcp bool) (msg string, key string)
 	sameQ := len(back.Question) == len(wantQ)
 	if sameQ && len(wantQ) == 1 {
 		g, w := back.Question[0], wantQ[0]
-		sameQ = strings.EqualFold(g.Name, w.Name) && g.Qtype == w.Qtype && g.Qclass == w.Qclass
+		sameQ = g.Name == w.Name && g.Qtype == w.Qtype && g.Qclass == w.Qclass // verbatim, letter case included
 	}
 	if !sameQ {
 		k := ""
@@ -134,13 +135,18 @@ func runC13(r *report.Run) {
 		}
 		w := c13World(seed, layout)
 		rng := rand.New(rand.NewSource(seed ^ 0x1234567))
-		servers, err := openAll(w.Text(), harness.ServerOpts{})
+		// every other database is served with the response cache on (replies from the cache are replies too)
+		cacheOn := i%2 == 1
+		servers, err := openAll(w.Text(), harness.ServerOpts{Cache: cacheOn})
 		r.Eval(1)
 		if err != nil {
 			r.Violation("", "well-formed file rejected: "+err.Error(), c13Case{WorldSeed: seed, Layout: layout})
 			continue
 		}
 		r.Count("databases_"+layoutName(w), 1)
+		if cacheOn {
+			r.Count("databases_with_cache_on", 1)
+		}
 		ips := []string{"10.1.0.5", "203.0.113.9", "2001:db8:1::5", "::1"}
 		for n := 0; n < perWorld; n++ {
 			q, wire := gen.HostileMsg(rng, w.Owners)
@@ -168,7 +174,7 @@ func runC13(r *report.Run) {
 			if r.SampleN() < 5 && q.IsEdns0() != nil && n%50 == 7 {
 				r.Sample(strings.ReplaceAll(q.String(), "\n", " | "))
 			}
-			c := c13Case{WorldSeed: seed, Layout: layout, Backend: sv.B.Name, QueryHex: hex.EncodeToString(wire), Query: q.String(), IP: ip, TCP: tcp}
+			c := c13Case{Cache: cacheOn, WorldSeed: seed, Layout: layout, Backend: sv.B.Name, QueryHex: hex.EncodeToString(wire), Query: q.String(), IP: ip, TCP: tcp}
 			if msg, key := c13Check(q, res, tcp); msg != "" {
 				r.Violation(key, fmt.Sprintf("%s (%s): %s; query: %s", sv.B.Name, layoutName(w), msg, strings.ReplaceAll(q.String(), "\n", " | ")), c)
 				continue
@@ -189,6 +195,9 @@ func runC13(r *report.Run) {
 				}
 			}
 		}
+		for _, sv := range servers.srv {
+			r.Count("replies_served_from_cache", sv.Stats.Snapshot()["DNS_cache.hit"])
+		}
 		servers.close()
 		if r.Violations() >= 15 {
 			break
@@ -203,12 +212,15 @@ func replayC13(r *report.Run, raw json.RawMessage) {
 		return
 	}
 	w := c13World(c.WorldSeed, c.Layout)
-	servers, err := openAll(w.Text(), harness.ServerOpts{})
+	servers, err := openAll(w.Text(), harness.ServerOpts{Cache: c.Cache})
 	if err != nil {
 		r.Violation("", err.Error(), c)
 		return
 	}
 	defer servers.close()
+	if c.Cache {
+		fmt.Println("note: the recorded reply came from a handler with the response cache on; it may depend on earlier queries of the run")
+	}
 	wire, _ := hex.DecodeString(c.QueryHex)
 	q := new(dns.Msg)
 	if err := q.Unpack(wire); err != nil {
